@@ -227,6 +227,8 @@ def work(job):
             agg.update(st)
             agg.update(m)
             agg['evaluations'] += 1
+            if scn.get('np_inputs'):
+                agg['F_NUMPY_TYPED_INPUTS'] += 1
             nontriv = ora.nontrivial(st) if hasattr(ora, 'nontrivial') \
                 else st.get('instants', 0) > 0
             patt = ora.pattern(scn, H, st) if hasattr(ora, 'pattern') else ''
